@@ -1,7 +1,7 @@
 """C18 -- behaviour is the same with and without the std I/O layer and the hash feature.
 
 IoLayer.tla specifies read_exact, take + read and write_all over scripted readers / writers (short reads, Ok(0),
-Interrupted, WouldBlock, other errors); TLC enumerates all scripts of up to 3 answers x buffer sizes x limits with the
+Interrupted, WouldBlock, other errors) and the byte-slice reader / writer (every buffer size incl. one byte at the end); TLC enumerates all scripts of up to 3 answers x buffer sizes x limits with the
 specified outcome.  A second harness crate is built four times against /repo's current tree (std / no_std x hash / no hash);
 every IoLayer case is replayed against `ruzstd::io` of each build and must match the one specification.  A common
 program set (decode every model frame through decode_all, decode_blocks + collect_to_writer, the streaming reader;
@@ -61,7 +61,7 @@ def check(ctx):
         for c, g in zip(cases, got):
             e = c["expect"]
             keys = [k for k in e.keys()]
-            if any(g.get(k) != e[k] for k in keys) or (c["op"] == "write_all" and not g.get("prefix", True)):
+            if any(g.get(k) != e[k] for k in keys) or (c["op"] in ("write_all", "slice_read") and not g.get("prefix", True)):
                 io_bad += 1
                 if io_bad <= 5:
                     ctx.violation("build %s: %s(n=%s, script=%s, limit=%s) behaves %s, specified %s" % (name, c["op"], c["n"], c["script"], c["limit"], json.dumps(g), json.dumps(e)),
